@@ -6,7 +6,9 @@ package main
 
 import (
 	"fmt"
+	"os"
 	"strings"
+	"time"
 
 	"github.com/256dpi/gomqtt/packet"
 
@@ -75,7 +77,14 @@ func (r *runner) run(sc *scenario) {
 		return
 	}
 	r.n++
+	t0 := time.Now()
 	lines, direct, quiescent := runScenario(sc)
+	if ms := int(time.Since(t0) / time.Millisecond); ms > 300 {
+		r.c.Stat("slow_scenarios", 1)
+		if os.Getenv("VERIF_SLOW") != "" {
+			fmt.Fprintf(os.Stderr, "slow %d ms: %s\n", ms, sc.text())
+		}
+	}
 	r.c.Emit("scn %d %s", r.n, sc.text())
 	for _, l := range lines {
 		r.c.Emit(l, r.n)
